@@ -5,8 +5,19 @@
 // applies the property oracle, and writes Coq case files with the inputs and the observed outputs.
 package main
 
-import hc "verif/hcommon"
+import (
+	"os"
+
+	hc "verif/hcommon"
+)
 
 var props = map[string]hc.PropFunc{}
 
-func main() { hc.Main(props) }
+func main() {
+	// worker mode: the C12 cases run in child processes, because the implementation ends the process
+	// (log.Fatalf) on most errors
+	if len(os.Args) > 1 && os.Args[1] == "c12worker" {
+		os.Exit(c12Worker(os.Args[2:]))
+	}
+	hc.Main(props)
+}
